@@ -1,0 +1,54 @@
+// SPDX-FileCopyrightText: 2026 The Pion community <https://pion.ly>
+// SPDX-License-Identifier: MIT
+
+//go:build verif
+
+package jitterbuffer
+
+import "github.com/pion/rtp"
+
+// VerifSnapshot is the unexported playout state of a JitterBuffer (verification harness only).
+type VerifSnapshot struct {
+	Head     uint16
+	State    State
+	Ready    bool
+	LastSeq  uint16
+	MinStart uint16
+	Length   uint16
+}
+
+// VerifSnapshot returns the unexported playout state.
+func (jb *JitterBuffer) VerifSnapshot() VerifSnapshot {
+	jb.mutex.Lock()
+	defer jb.mutex.Unlock()
+
+	return VerifSnapshot{
+		Head:     jb.playoutHead,
+		State:    jb.state,
+		Ready:    jb.playoutReady,
+		LastSeq:  jb.lastSequence,
+		MinStart: jb.minStartCount,
+		Length:   jb.packets.Length(),
+	}
+}
+
+// VerifChain returns the priorities and packets of the nodes reachable from the head of the
+// queue, following at most limit links; complete is false when more nodes remain (a cycle).
+func (q *PriorityQueue) VerifChain(limit int) (prios []uint16, vals []*rtp.Packet, complete bool) {
+	next := q.next
+	for next != nil {
+		if len(prios) >= limit {
+			return prios, vals, false
+		}
+		prios = append(prios, next.priority)
+		vals = append(vals, next.val)
+		next = next.next
+	}
+
+	return prios, vals, true
+}
+
+// VerifBuffer returns the interceptor's jitter buffer.
+func (i *ReceiverInterceptor) VerifBuffer() *JitterBuffer {
+	return i.buffer
+}
